@@ -580,6 +580,11 @@ func runBehaviour(b *behaviour, rep *vfutil.Report) (fd *finding, at int) {
 		}
 		fd := r.exec(i)
 		if fd == nil {
+			// steps nothing holds back (a worker joining an opening process, a loop re-entering WaitOne) have no
+			// observable end: the next step is only taken once every goroutine of the pool has come to rest
+			fd = c.quiesce()
+		}
+		if fd == nil {
 			fd = r.settle(i)
 		}
 		if fd != nil && fd.Kind == "drift" {
